@@ -358,7 +358,16 @@ func firstLine(s string) string {
 }
 
 func classify(out string, err error, ctxErr error) string {
-	l := firstLine(out)
+	// the verdict is the first line that is not a solver warning
+	l := ""
+	for _, ln := range strings.Split(out, "\n") {
+		ln = strings.TrimSpace(ln)
+		if ln == "" || strings.HasPrefix(ln, "WARNING") {
+			continue
+		}
+		l = ln
+		break
+	}
 	switch {
 	case l == "unsat":
 		return "unsat"
